@@ -1682,13 +1682,19 @@ func (n *LambdaNode) String() string {
 }
 
 func (n *LambdaNode) Format(buf *bytes.Buffer, indent string, onNewLine bool) {
+	// The zero value of a lambda var is a nil node, and a lambda that refers to it has no expression.
+	if n == nil {
+		return
+	}
 	if n.Comment != nil {
 		n.Comment.Format(buf, indent, onNewLine)
 		onNewLine = true
 	}
 	writeIndent(buf, indent, onNewLine)
 	buf.WriteString("lambda: ")
-	n.Expression.Format(buf, indent, false)
+	if n.Expression != nil {
+		n.Expression.Format(buf, indent, false)
+	}
 }
 func (n *LambdaNode) SetComment(c *CommentNode) {
 	n.Comment = c
@@ -1701,7 +1707,7 @@ func (n *LambdaNode) Equal(o interface{}) bool {
 }
 
 func (n *LambdaNode) ExpressionString() string {
-	if n.Expression == nil {
+	if n == nil || n.Expression == nil {
 		return ""
 	}
 	var buf bytes.Buffer
